@@ -146,9 +146,27 @@ func reproduces(w *engine.Witness, o Outcome) bool {
 	if strings.HasPrefix(w.Msg, "uncaught panic") {
 		return o.Panic != ""
 	}
+	// member-wise JSON assertions name the member; symbolic names print differently natively
+	key := func(m string) string {
+		if i := strings.Index(m, ": member "); i >= 0 {
+			j := strings.LastIndex(m, " lost or changed")
+			if j < 0 {
+				j = strings.LastIndex(m, " appears only")
+			}
+			if j > i && strings.Contains(m[i:j], "(symbolic name)") {
+				return m[:i] + m[j:]
+			}
+		}
+		return m
+	}
 	for _, f := range o.Failures {
 		if f == w.Msg {
 			return true
+		}
+		if k := key(w.Msg); k != w.Msg {
+			if i := strings.Index(f, ": member "); i >= 0 && strings.HasPrefix(k, f[:i]) && strings.HasSuffix(f, k[i:]) {
+				return true
+			}
 		}
 	}
 	return false
